@@ -166,6 +166,14 @@ class Run:
     def observe(self, key, what, case=None):
         self.observed.append((key, what, case))
 
+    def note(self, key, what):
+        """A mismatch in behaviour the specification covers BEYOND the listed properties: reported, never a verdict."""
+        if not hasattr(self, "notes"):
+            self.notes = {}
+        if key not in self.notes:
+            print("OBSERVATION property=%s (outside the property's statement, not a verdict) %s %s" % (self.pid, key, str(what)[:300]))
+        self.notes[key] = self.notes.get(key, 0) + 1
+
     def finish(self, level="model_checking"):
         pid = self.pid
         bykey = {}
@@ -201,6 +209,7 @@ class Run:
         if cov["states"] < 1:
             cov.pop("states"); cov.pop("transitions")
         cov["known_findings_observed"] = known_seen
+        cov["observations_outside_statement"] = getattr(self, "notes", {})
         ev = dict(property_id=self.pid, tier=self.tier, seed=self.seed, level=level, coverage=cov,
                   assumptions=self.assumptions, wall_s=round(time.time() - self.t0, 2), violations=nviol)
         os.makedirs(os.path.join(VERIF, "evidence"), exist_ok=True)
